@@ -828,21 +828,35 @@ func scenTransferFaults(e *engineA) error {
 		lk := links[e.rng.Intn(len(links))]
 		k := int64(1 + e.rng.Intn(6))
 		cur := e.net.WriteSeq(lk[0].label, lk[1].label)
-		mode := e.rng.Intn(3)
+		mode := e.rng.Intn(4)
 		switch mode {
 		case 0:
 			e.net.BreakAt(lk[0].label, lk[1].label, cur+k)
 		case 1:
 			e.net.StallAt(lk[0].label, lk[1].label, cur+k)
+		case 3:
+			// the target cannot be reached, so the transfer stays pending; then
+			// the leader loses its quorum and steps down without a higher term
+			e.cutBoth(l, t, true)
+			go func(l *Node) {
+				time.Sleep(time.Duration(1+e.rng.Intn(2)) * e.hb())
+				e.isolate(l, true)
+				time.Sleep(6 * e.hb())
+				e.isolate(l, false)
+			}(l)
 		}
 		e.rc.emit(&ev.Rec{K: "fault", Op: fmt.Sprintf("transfer-with-fault-mode%d", mode), Nid: l.nid, ID: t.nid, Idx: uint64(k), Note: fmt.Sprintf("%d->%d", lk[0].nid, lk[1].nid)})
 		target := t.nid
-		if e.rng.Intn(3) == 0 {
+		if e.rng.Intn(3) == 0 && mode != 3 {
 			target = 0
 		}
 		done := make(chan struct{})
+		tmo := time.Duration(2+e.rng.Intn(6)) * e.hb()
+		if mode == 3 {
+			tmo = 30 * e.hb()
+		}
 		go func() {
-			e.cl.transfer(l, target, time.Duration(2+e.rng.Intn(6))*e.hb())
+			e.cl.transfer(l, target, tmo)
 			close(done)
 		}()
 		select {
@@ -850,6 +864,10 @@ func scenTransferFaults(e *engineA) error {
 		case <-time.After(40 * e.hb()):
 		}
 		e.sleepHB(1, 3)
+		if mode == 3 {
+			e.sleepHB(6, 8)
+			e.cutBoth(l, t, false)
+		}
 		e.net.BreakAt(lk[0].label, lk[1].label, 0)
 		e.net.StallAt(lk[0].label, lk[1].label, 0)
 		e.net.Stall(lk[0].label, lk[1].label, false)
